@@ -15,6 +15,8 @@ pub mod c14;
 pub mod c15;
 pub mod c16;
 pub mod c17;
+pub mod c18;
+pub mod c19;
 
 pub fn dispatch(ctx: &Ctx) -> i32 {
     match ctx.id {
@@ -34,6 +36,8 @@ pub fn dispatch(ctx: &Ctx) -> i32 {
         "C15" => c15::run(ctx),
         "C16" => c16::run(ctx),
         "C17" => c17::run(ctx),
+        "C18" => c18::run(ctx),
+        "C19" => c19::run(ctx),
         other => {
             println!("INCONCLUSIVE property={other} reason=no monitor with this id");
             2
